@@ -269,10 +269,11 @@ Section LayerV.
     let '(f, hs', lg) := compute hs r ok in
     new_and_cache c1 hs' now r f lg (fun f0 => ims_on && wants_cache cache_on (rq_method r) f0) false.
 
-  (** [handle_vary_missing]: compute, look the entry up *again*, clone it, [push_response] at the
-      position found *before* the computation, re-insert with the remaining lifetime.
+  (** [handle_vary_missing] as it was before the repair (fix commit in the repo worktree): compute, look
+      the entry up *again*, clone it, [push_response] at the position found *before* the computation —
+      in a possibly different vector —, re-insert with the remaining lifetime.
       [c1] is the cache at the time of the second lookup. *)
-  Definition vary_missing (c1 : vcache) (hs : hstate) (now : N) (r : request) (ok : bool)
+  Definition vary_missing_v0 (c1 : vcache) (hs : hstate) (now : N) (r : request) (ok : bool)
              (k : key) (position : nat) (headers : hcoll) : outcome vresult :=
     let '(f, hs', lg) := compute hs r ok in
     let '((k', found'), c2) := vrelookup k c1 now in
@@ -282,6 +283,31 @@ Section LayerV.
         | Ok (vr', (f1, vary1)) =>
             let e'' := mkVE vr' now (option_map (fun l => l - (now - ve_created e')) (ve_life e')) in
             Ok ((pc_insert k' e'' c2, hs'), finishV r f1 vary1 ims_on true, lg, [r])
+        | Err e => Err e
+        | Panic => Panic
+        end
+    | None => new_and_cache c2 hs' now r f lg (fun _ => ims_on) true
+    end.
+
+  (** [handle_vary_missing] after the repair: the position is searched for again in the entry that the
+      second lookup returned; if that entry meanwhile holds the variant, the cache is left alone and the
+      response just computed is served with the header list of the first search. *)
+  Definition vary_missing (c1 : vcache) (hs : hstate) (now : N) (r : request) (ok : bool)
+             (k : key) (position : nat) (headers : hcoll) : outcome vresult :=
+    let '(f, hs', lg) := compute hs r ok in
+    let '((k', found'), c2) := vrelookup k c1 now in
+    match found' with
+    | Some e' =>
+        match vr_get_by_request (ve_var e') r with
+        | Ok (Hit _) => Ok ((c2, hs'), finishV r f headers ims_on true, lg, [r])
+        | Ok (Miss position' headers') =>
+            match vr_push dbg (ve_var e') f position' headers' with
+            | Ok (vr', (f1, vary1)) =>
+                let e'' := mkVE vr' now (option_map (fun l => l - (now - ve_created e')) (ve_life e')) in
+                Ok ((pc_insert k' e'' c2, hs'), finishV r f1 vary1 ims_on true, lg, [r])
+            | Err e => Err e
+            | Panic => Panic
+            end
         | Err e => Err e
         | Panic => Panic
         end
@@ -329,6 +355,11 @@ Section LayerV.
     match p with
     | PkMiss r ok => missV c hs now r ok
     | PkVary r ok k position headers => vary_missing c hs now r ok k position headers
+    end.
+  Definition serveV_phase2_v0 (c : vcache) (hs : hstate) (now : N) (p : parked) : outcome vresult :=
+    match p with
+    | PkMiss r ok => missV c hs now r ok
+    | PkVary r ok k position headers => vary_missing_v0 c hs now r ok k position headers
     end.
 
   (** [handle_cache] for one request at time [now] (ms), nothing else running in between *)
@@ -468,44 +499,44 @@ Definition stepV_fix (cfg : config) :=
 Definition phase1_fix (cfg : config) :=
   serveV_phase1 (list N) (cf_cache cfg) (cf_ims cfg) parse_ims_fix sanitize_ok_fix
         (prime_fix cfg) (fun _ _ => None).
-Definition phase2_fix (cfg : config) :=
-  serveV_phase2 (list N) (compute_fix (cf_handlers cfg)) (cf_cache cfg) (cf_ims cfg)
+Definition phase2_fix (v0 : bool) (cfg : config) :=
+  (if v0 then serveV_phase2_v0 else serveV_phase2) (list N) (compute_fix (cf_handlers cfg)) (cf_cache cfg) (cf_ims cfg)
         (fun _ _ => None) (rules_fix (cf_vary cfg)) true.
 
 Definition x_reply (cfg : config) (res : vcache * list N * reply * list bytes * list request) : xval :=
   let '(_, rp, lg, _) := res in x_obs (cf_report cfg) (ObReply rp lg).
 
 (** [pk]: the suspended request, if any (a second [FPark] while one is suspended is not run: (L (N 96))) *)
-Fixpoint run_fix_ops (cfg : config) (st : vcache * list N) (now : N) (pk : option (parked))
+Fixpoint run_fix_ops (v0 : bool) (cfg : config) (st : vcache * list N) (now : N) (pk : option (parked))
          (ops : list fop) : outcome (list xval) :=
   let cons (x : xval) (o : outcome (list xval)) : outcome (list xval) :=
     match o with Ok l => Ok (x :: l) | o' => o' end in
   match ops with
   | [] => Ok []
-  | FDump r :: rest => cons (x_dump (fst st) r) (run_fix_ops cfg st now pk rest)
+  | FDump r :: rest => cons (x_dump (fst st) r) (run_fix_ops v0 cfg st now pk rest)
   | FOp o :: rest =>
       match stepV_fix cfg st now o with
-      | Ok (st', now', ob, _) => cons (x_obs (cf_report cfg) ob) (run_fix_ops cfg st' now' pk rest)
+      | Ok (st', now', ob, _) => cons (x_obs (cf_report cfg) ob) (run_fix_ops v0 cfg st' now' pk rest)
       | Err e => Err e
       | Panic => Panic
       end
   | FPark r :: rest =>
       match pk with
-      | Some _ => cons (XL [XN 96]) (run_fix_ops cfg st now pk rest)
+      | Some _ => cons (XL [XN 96]) (run_fix_ops v0 cfg st now pk rest)
       | None =>
           match phase1_fix cfg st now r with
-          | Ok (inl res) => cons (x_reply cfg res) (run_fix_ops cfg (fst (fst (fst res))) now None rest)
-          | Ok (inr (c1, p)) => cons (XL []) (run_fix_ops cfg (c1, snd st) now (Some p) rest)
+          | Ok (inl res) => cons (x_reply cfg res) (run_fix_ops v0 cfg (fst (fst (fst res))) now None rest)
+          | Ok (inr (c1, p)) => cons (XL []) (run_fix_ops v0 cfg (c1, snd st) now (Some p) rest)
           | Err e => Err e
           | Panic => Panic
           end
       end
   | FRelease :: rest =>
       match pk with
-      | None => cons (XL []) (run_fix_ops cfg st now None rest)
+      | None => cons (XL []) (run_fix_ops v0 cfg st now None rest)
       | Some p =>
-          match phase2_fix cfg (fst st) (snd st) now p with
-          | Ok res => cons (x_reply cfg res) (run_fix_ops cfg (fst (fst (fst res))) now None rest)
+          match phase2_fix v0 cfg (fst st) (snd st) now p with
+          | Ok res => cons (x_reply cfg res) (run_fix_ops v0 cfg (fst (fst (fst res))) now None rest)
           | Err e => Err e
           | Panic => Panic
           end
@@ -515,13 +546,13 @@ Fixpoint run_fix_ops (cfg : config) (st : vcache * list N) (now : N) (pk : optio
 Definition rules_ok (cfg : config) : bool :=
   forallb (fun pr : bytes * list vrule => forallb (fun '(n, _, _) => rule_name_ok n) (snd pr)) (cf_vary cfg).
 
-Definition run_vary (x : xval) : xval :=
+Definition run_vary_gen (v0 : bool) (x : xval) : xval :=
   match x with
   | XL [c; XL ops] =>
       match d_config c, d_all d_fop ops with
       | Some cfg, Some ops' =>
           if negb (rules_ok cfg) then XL [XN 2] else      (* [add_rule] panics while the host is built *)
-          match run_fix_ops cfg ([], repeat 0 (length (cf_handlers cfg) + 8)) (cf_phase cfg) None ops' with
+          match run_fix_ops v0 cfg ([], repeat 0 (length (cf_handlers cfg) + 8)) (cf_phase cfg) None ops' with
           | Ok l => XL l
           | Err e => XL [XN 1; XN e]
           | Panic => XL [XN 2]
@@ -530,6 +561,10 @@ Definition run_vary (x : xval) : xval :=
       end
   | _ => bad_input
   end.
+
+Definition run_vary := run_vary_gen false.
+(** the model of the code before the repair of [handle_vary_missing] (differs only on park/release histories) *)
+Definition run_vary_v0 := run_vary_gen true.
 
 Definition spec_step_fix (cfg : config) :=
   spec_step (list N) (compute_fix (cf_handlers cfg)) (cf_cache cfg) (cf_ims cfg) (prime_fix cfg) (fun _ _ => None)
@@ -556,4 +591,4 @@ Definition run_vary_spec (x : xval) : xval :=
   end.
 
 Definition vary_table : list (bytes * (xval -> xval)) :=
-  [ (B "vary.run", run_vary); (B "vary.spec", run_vary_spec) ].
+  [ (B "vary.run", run_vary); (B "vary.run_v0", run_vary_v0); (B "vary.spec", run_vary_spec) ].
